@@ -54,7 +54,13 @@ type histGen struct {
 	ensureLoaded func(c int) bool
 }
 
-func genHist(seed uint64, prop, tier string, audit bool) *Plan {
+func genHist(seed uint64, prop, tier string, audit bool, mode string) *Plan {
+	switch {
+	case strings.HasPrefix(mode, "sweep"):
+		return genSweep(seed, prop, tier, mode)
+	case strings.HasPrefix(mode, "tornsweep"):
+		return genTornSweep(seed, prop, tier, mode)
+	}
 	g := newRNG(seed)
 	meta := readMetaTable()
 	idx := corpusIndex()
@@ -123,7 +129,7 @@ func genHist(seed uint64, prop, tier string, audit bool) *Plan {
 			c = CfgSpec{Class: "empty", Text: "", Via: "string"}
 		}
 		// C11: some configurations arrive through a faulty transport
-		if prop == "C11" && g.Chance(0.35) {
+		if prop == "C11" && !strings.Contains(mode, "nofault") && g.Chance(0.35) {
 			hg.addTransport(&c)
 		}
 		p.Cfgs = append(p.Cfgs, c)
